@@ -129,6 +129,14 @@ theorem master_fixed_point_parsed (s : Str) (p p' : MasterPlaylist) (h : parseMa
   rw [master_roundtrip_parsed s p h ho] at h'
   cases h'; rfl
 
+/-- **the canonical text of any valid value is read faithfully**: no parse in the hypotheses — for every master
+playlist value that passes the builder's validation (`Valid`) and whose fields are in the text domain (`MasterWF`),
+the parser returns exactly that value from `to_string()` -/
+theorem master_canonical_text (p : MasterPlaylist) (hv : Valid p) (wf : MasterWF p) : parseMaster p.show = .ok p := by
+  unfold MasterPlaylist.show
+  rw [parseMaster_of_written p.writeLines (master_written_lines_rt p wf)]
+  exact write_parse_valid p hv
+
 /-- non-vacuity of `master_roundtrip_wf` / `master_roundtrip_parsed`: a concrete master playlist with every kind of
 tag is in `MasterWF` and round-trips at string level -/
 theorem example_master : MasterWF exMaster ∧ parseMaster exMaster.show = .ok exMaster := ⟨exMaster_wf, exMaster_roundtrip⟩
